@@ -139,10 +139,13 @@ func addLeaf(t Tree, r *Route, s *Segment, h Handler) (Leaf, error) {
 				return nil, errors.Wrap(err, "add optional leaf to grandparent")
 			}
 		} else {
-			_, err = addLeaf(parent, r, parent.getSegment(), h)
+			// The optional segment is the only segment of the route, the short form is
+			// the root path "/".
+			_, err = addLeaf(parent, r, &Segment{Pos: s.Pos, Slash: "/"}, h)
 			if err != nil {
 				return nil, errors.Wrap(err, "add optional leaf to parent")
 			}
+			leaves = t.getLeaves() // The parent is the tree itself
 		}
 	}
 
